@@ -275,9 +275,22 @@ func genVanish(t *rapid.T) vanishCase {
 	sc.ConnectWaitMs = 5000
 	K := int64(c.K) * 1000
 	add := func(s ...gwsim.Step) { sc.Steps = append(sc.Steps, s...) }
-	c.State = rapid.SampledFrom([]string{"nothing", "midconnect", "active", "active", "asleep", "asleep", "asleep", "woken-asleep", "woken-reconnected"}).Draw(t, "state")
+	c.State = rapid.SampledFrom([]string{"nothing", "refused", "midconnect", "active", "active", "asleep", "asleep", "asleep", "woken-asleep", "woken-reconnected"}).Draw(t, "state")
 	switch c.State {
 	case "nothing":
+	case "refused":
+		// the only thing the client ever sent is a CONNECT which the gateway refuses itself (zero
+		// keep-alive, a client ID which is not an MQTT string, another protocol ID); having read the
+		// refusal it goes away
+		p := gwgen.Connect("cl", 0, rapid.Bool().Draw(t, "will"), true)
+		switch rapid.IntRange(0, 3).Draw(t, "refusal") {
+		case 0:
+			p = gwgen.Connect("c\xff", uint16(c.K), false, true)
+		case 1:
+			p = gwgen.Connect("cl", uint16(c.K), false, true)
+			p.ProtocolID = 2
+		}
+		add(gwgen.SN(p))
 	case "midconnect":
 		if rapid.Bool().Draw(t, "brokersilent") {
 			sc.Auto.Connack = nil
@@ -333,7 +346,7 @@ func vanishBound(c vanishCase) int64 {
 	K := int64(c.K) * 1e9
 	poll := int64(101e6)
 	switch c.State {
-	case "nothing", "midconnect":
+	case "nothing", "midconnect", "refused":
 		return 5e9 + poll
 	case "active", "woken-reconnected":
 		return K*3/2 + K + poll // "about 1.5 x keep-alive" read generously as <= 2.5 K
@@ -345,7 +358,7 @@ func vanishBound(c vanishCase) int64 {
 func TestC34(t *testing.T) {
 	vf.Check(t, vf.Prop[vanishCase]{
 		ID: "C34", Name: "vanished-clients-reaped", Bubble: true,
-		Rule: "a session against a broker that enforces time (closes a connection without CONNECT after 5 s and one silent for 1.5 x keep-alive); session prefix ending in: nothing sent at all / mid connect exchange (broker silent, or WILLTOPIC outstanding) / active after 0-3 pings / asleep with D<=K, D>K, D>>K (up to 50 K) / woken early and asleep again / woken early and reconnected (with or without further activity); then the client is silent forever and, in a third of the cases, unreachable as well (every write to it fails). K in {1,3,10,60} s. Non-trivial = the silence point lies after a sleep; distinct by script.",
+		Rule: "a session against a broker that enforces time (closes a connection without CONNECT after 5 s and one silent for 1.5 x keep-alive); session prefix ending in: nothing sent at all / one CONNECT which the gateway refuses itself (zero keep-alive, invalid client ID, other protocol ID) / mid connect exchange (broker silent, or WILLTOPIC outstanding) / active after 0-3 pings / asleep with D<=K, D>K, D>>K (up to 50 K) / woken early and asleep again / woken early and reconnected (with or without further activity); then the client is silent forever and, in a third of the cases, unreachable as well (every write to it fails). K in {1,3,10,60} s. Non-trivial = the silence point lies after a sleep; distinct by script.",
 		Assumptions: []string{"bounds measured from the client's last packet: 5 s + poll before a CONNECT was accepted; 1.5 K + K slack + poll when active ('about 1.5x' read as <= 2.5 K); announced duration + 1.5 K + K slack + poll when asleep (from the last DISCONNECT(duration) or wake-up)",
 			"the observation window is the bound plus 3 K + 2 s of virtual time; 'never ends' is observed as 'not ended by then'"},
 		Gen: genVanish,
